@@ -17,7 +17,7 @@ def jobs(ctx):
     maxlen = 2 if quick else 3
     step = 64 if quick else 16
     for lo in range(0, 256, step):
-        out.append("decode first=%d-%d maxlen=%d offsets=0,1,5" % (lo, lo + step - 1, maxlen))
+        out.append("decode first=%d-%d maxlen=%d offsets=%s" % (lo, lo + step - 1, maxlen, "0,1,5,9" if ctx.deep else "0,1,5"))
     out.append("empty offsets=0,1,5")
     out.append("beyond")
     tail = 2 if quick else 3
@@ -28,7 +28,7 @@ def jobs(ctx):
             else:
                 for lo in range(0, 256, 32):
                     out.append("long first=%d-%d len=%d prefix=%d tail=3 offsets=0" % (lo, lo + 31, ln, prefix))
-    top = 1 << (16 if quick else 21)
+    top = 1 << (16 if quick else (24 if ctx.deep else 21))
     stepv = top // 16
     for lo in range(0, top, stepv):
         out.append("round lo=%d hi=%d" % (lo, lo + stepv))
@@ -76,7 +76,7 @@ def run(ctx):
     js = jobs(ctx)
     ctx.bounds = {"decode_maxlen": 2 if ctx.tier == "quick" else 3, "offsets": [0, 1, 5],
                   "long": "len 8..11 x 3 prefixes x last %d positions" % (2 if ctx.tier == "quick" else 3),
-                  "roundtrip": "[0,2^%d) + 2^k,2^k+-1" % (16 if ctx.tier == "quick" else 21), "jobs": len(js)}
+                  "roundtrip": "[0,2^%d) + 2^k,2^k+-1" % (16 if ctx.tier == "quick" else (24 if ctx.deep else 21)), "jobs": len(js)}
     ctx.rule = ("case = (function, byte string, cursor offset) or (value); distinct by enumeration; non-trivial = string "
                 "whose terminator is its last byte (ends exactly at the guard page) or that must be rejected")
     res = core.pmap(run_job, js)
